@@ -511,6 +511,11 @@ func (b *assignmentBuilder) resolveExpr(matcher *option.IdentMatcher, root bmode
 	for i := 0; i < matcher.PathLen(); i++ {
 		isLast := matcher.PathLen() == i+1
 		pkg := util.PkgOf(typ)
+		if pkg == nil {
+			// An anonymous struct has no package of its own: its unexported members are found
+			// (only) when the current package declared them.
+			pkg = b.pkg.Types
+		}
 
 		obj, _, _ := types.LookupFieldOrMethod(typ, addressable, pkg, matcher.NameAt(i))
 		if obj == nil {
@@ -598,6 +603,11 @@ func (b *assignmentBuilder) resolveTemplatedExpr(
 		isLast := matcher.PathLen() == i+1
 
 		pkg := util.PkgOf(typ)
+		if pkg == nil {
+			// An anonymous struct has no package of its own: its unexported members are found
+			// (only) when the current package declared them.
+			pkg = b.pkg.Types
+		}
 		obj, _, _ := types.LookupFieldOrMethod(typ, addressable, pkg, matcher.NameAt(i))
 		if obj == nil {
 			return
